@@ -12,9 +12,19 @@ class HConn:
         self.handle = handle
         self.peer_address = 'peer'
         self.role = role
+        self.waiters = []
 
     def cancel_on_disconnection(self, aw):
-        return asyncio.ensure_future(aw)
+        # device.Connection: utils.cancel_on_event(self, EVENT_DISCONNECTION, aw)
+        f = asyncio.ensure_future(aw)
+        self.waiters.append(f)
+        return f
+
+    def disconnected(self):
+        for f in self.waiters:
+            if not f.done():
+                f.cancel('abort: disconnection event occurred.')
+        self.waiters = []
 
     def __repr__(self):
         return f'HConn({self.handle})'
@@ -81,5 +91,7 @@ class Wire:
         self.dead.add(handle)
         self.q = [m for m in self.q if m[1] != handle]
         for side in (0, 1):
+            # the manager hears the host event first, then the Device tells the Connection's own listeners
             self.host[side].emit('disconnection', handle, 0x13)
+            self.conns[side][handle].disconnected()
         loop.run_ready()
